@@ -97,7 +97,7 @@ def readSpec (l : Log) (ws : List String) : Option String :=
   | _ => none
 
 def runCase : CaseFn := fun c => Id.run do
-  let crashCase := c.header == ["store", "crashes"]
+  let crashCase := c.header == ["store", "crashes"] || c.header == ["store", "init"]
   let pid := if crashCase then "C08" else "C07"
   let mut out : Array String := #[]
   let mut d : Durable := Neutrino.Store.init
@@ -121,6 +121,12 @@ def runCase : CaseFn := fun c => Id.run do
     if ws == ["nop"] then
       inj := .none
       afterMode := false
+      continue
+    if ws.head? == some "initcrash" then
+      -- first start killed before its n-th index transaction
+      d := initCrash (nat! (ws.getD 1 "0"))
+      if obs == "ok" then d := initCrash 5
+      log := Log.init
       continue
     if ws == ["dump"] then
       match parseDump obs with
@@ -167,7 +173,8 @@ def runCase : CaseFn := fun c => Id.run do
         pendingCrash := some (log, op)
       else if op == .reopen then
         if obs != "ok" then
-          out := out.push s!"ORACLE-FAIL {pid} case {c.num} line {ln}: the stores cannot be opened ({obs})"
+          let shape := if c.header == ["store", "init"] then "shape=crash-during-first-init " else ""
+          out := out.push s!"ORACLE-FAIL {pid} case {c.num} line {ln}: {shape}the stores cannot be opened ({obs})"
         if unknown then
           -- a rollback that failed under an injected fault is healed by this restart: like a crash inside it
           pendingCrash := failedOp
